@@ -36,14 +36,14 @@ def rerun_findings(ctx):
             ctx.known_finding(f['id'], f['what'])
 
 
-def sm_vs_library(ctx, cases):
+def sm_vs_library(ctx, cases, codec='uper'):
     """The X.691 specification model (Per/X691.v) against uper.py directly: on every generated case inside
     x691_scope the library's octets must be the specification's (this is the composition of the correspondence
     IM = library with the theorem IM = SM, executed end to end); the share of cases inside the scope is reported."""
     from common import to_coq
     rows = []
     for c in cases:
-        r = lib.attempt(lib.compile_string, c.text, 'uper', numeric_enums=c.numeric)
+        r = lib.attempt(lib.compile_string, c.text, codec, numeric_enums=c.numeric)
         if r[0] != 'ok':
             continue
         e = lib.attempt(r[1].encode, c.tname, c.api_value())
@@ -61,29 +61,36 @@ def sm_vs_library(ctx, cases):
             val = to_coq(G.coq_value(c.rt, c.t, c.api_value()))
             nm = 'true' if c.numeric else 'false'
             want = to_coq(bytes(e[1])) if e[0] == 'ok' else '[]'
-            cells.append('(x691_scope %s %s 40 %s %s, match x691_encode_octets %s %s 40 %s %s with Ok b => '
-                         'if list_eqb Z.eqb b %s then 1 else 0 | Err _ => 2 end)' % (
-                             nm, envs[key], ty, val, nm, envs[key], ty, val, want))
+            if codec == 'uper':
+                cells.append('(x691_scope %s %s 40 %s %s, match x691_encode_octets %s %s 40 %s %s with Ok b => '
+                             'if list_eqb Z.eqb b %s then 1 else 0 | Err _ => 2 end)' % (
+                                 nm, envs[key], ty, val, nm, envs[key], ty, val, want))
+            else:
+                # aligned: the reading pad_empty = true (an empty octet-aligned bit-field still pads)
+                cells.append('(x691a_scope true %s %s 40 %s %s, match x691a_encode_octets %s %s true 40 %s %s with Ok b => '
+                             'if list_eqb Z.eqb b %s then 1 else 0 | Err _ => 2 end)' % (
+                                 nm, envs[key], ty, val, nm, envs[key], ty, val, want))
         lines.append('Eval vm_compute in [%s].' % ';\n '.join(cells))
         shards.append('\n'.join(lines) + '\n')
         index.append(part)
-    res = CC.run_shards(ctx, 'x691', ['Base.Prelude', 'Base.Corr', 'Syntax.Asn1', 'Per.UperImpl', 'Per.X691', 'Per.X691Refine'], shards)
+    res = CC.run_shards(ctx, 'x691_' + codec, ['Base.Prelude', 'Base.Corr', 'Syntax.Asn1', 'Per.UperImpl', 'Per.X691', 'Per.X691Refine'] +
+                        (['Per.PerImpl', 'Per.X691Aligned', 'Per.X691AlignedRefine'] if codec == 'per' else []), shards)
     for part, r in zip(index, res):
         (cells,) = r
         for (c, e), (inscope, verdict) in zip(part, cells):
             ctx.evaluations += 1
             inscope = inscope in (True, 'true')
-            ctx.count('x691-scope:%s' % ('in' if inscope else 'out'))
+            ctx.count('x691-scope:%s:%s' % (codec, 'in' if inscope else 'out'))
             if not inscope:
                 continue
             empty = e[0] == 'ok' and e[1] == b''
             if e[0] == 'ok' and verdict != 1 and not empty:
-                ctx.violation('uper: a value inside x691_scope is encoded as %s, not as the X.691 specification model '
-                              'prescribes' % e[1].hex()[:80],
-                              c.replay(codec='uper', kind='x691', lib=e[1].hex()))
+                ctx.violation('%s: a value inside the X.691 scope is encoded as %s, not as the specification model '
+                              'prescribes' % (codec, e[1].hex()[:80]),
+                              c.replay(codec=codec, kind='x691', lib=e[1].hex()))
             elif e[0] != 'ok' and verdict != 2:
-                ctx.violation('uper: a value inside x691_scope that the specification model encodes is rejected: %s %s'
-                              % (e[1], e[2][:100]), c.replay(codec='uper', kind='x691'))
+                ctx.violation('%s: a value inside the X.691 scope that the specification model encodes is rejected: %s %s'
+                              % (codec, e[1], e[2][:100]), c.replay(codec=codec, kind='x691'))
 
 
 def run(ctx):
@@ -102,12 +109,14 @@ def run(ctx):
     CC.corr_encode_decode(ctx, U, cases)
     sm_vs_library(ctx, cases)
     if not ctx.quick:
-        big = G.Opts(big=True, max_depth=1, n_types=2, **U.OPTS)
+        big = G.Opts(big=True, max_depth=1, n_types=2, **dict(U.OPTS, recursion=False))
         CC.corr_encode_decode(ctx, U, CC.gen_cases(ctx, big, 40, 2), tag='corr-big', shard=20)
     mods = X.models()
     for codec in ('uper', 'per'):
         if codec in mods and codec != 'uper':
-            CC.corr_encode_decode(ctx, mods[codec], CC.gen_cases(ctx, G.Opts(**mods[codec].OPTS), n, 3))
+            pcases = CC.gen_cases(ctx, G.Opts(**mods[codec].OPTS), n, 3)
+            CC.corr_encode_decode(ctx, mods[codec], pcases)
+            sm_vs_library(ctx, pcases, codec)
     boundary.run(ctx, ['uper', 'per'], mods, roundtrip=False,
                  lengths=None if not ctx.quick else 'quick')
     rerun_findings(ctx)
